@@ -11,6 +11,7 @@ From PV Require Export Model.PayloadX.
 From PV Require Export Model.JobGroupX.
 From PV Require Export Model.TransformX.
 From PV Require Export Model.DecompX.
+From PV Require Export Model.ComponentsX Model.EnginesX Model.SourceX.
 
 Definition dispatch (f : Z) (x : sx) : sx :=
   match f with
@@ -37,5 +38,7 @@ Definition dispatch (f : Z) (x : sx) : sx :=
   (* 1300-1304: C13, the code as it is; 1310-1313: with the repairs proposed in known_findings.json *)
   | 1310 => x_pol_unitary_g true x | 1311 => x_pol_convert_g true x | 1312 => x_pol_probs_g true x | 1313 => x_pol_spec_g true x
   | 1300 => x_pol_unitary x | 1301 => x_pol_convert x | 1302 => x_pol_probs x | 1303 => x_pol_spec x | 1304 => x_labels x
+  | 600 => x_get_probs x | 601 => x_one_photon x | 602 => x_prob_dist x | 603 => x_generate x | 604 => x_prob_table x
+  | 605 => x_from_noise x | 606 => x_generate_filtered x | 607 => x_event_law x
   | _ => L []
   end%Z.
